@@ -1,7 +1,7 @@
 """C27 Objects keep their class and polymorphic queries are exact — BOUNDED stand-in (level other).
 
 The property quantifies over all inheritance hierarchies, objects and queries; the per-function contracts in reach (class refinement in `_get_from_identity_map_`: C11) carry only a
-small part of it. Here the real code runs end to end on SQLite over an enumerated family: 5 hierarchies (linear chain, diamond, custom string discriminator, custom integer
+small part of it. Here the real code runs end to end on SQLite over an enumerated family: 6 hierarchies (linear chain, diamond, a 5-level hierarchy with a branch and a deep diamond, custom string discriminator, custom integer
 discriminator with a gap) x one stored object per class x 16 ways of reaching an object in a LATER session (by key through every ancestor, get / select on every ancestor, through a
 to-one reference, through a collection, as an unloaded reference that is loaded on attribute access, select_by_sql, prefetch, query projection) : the object has the class it was created
 with; reaching it through a class it does not belong to raises ObjectNotFound / returns nothing; `E.select()`, `count`, `exists` and `isinstance(x, T)` / `not isinstance` / tuple forms
@@ -16,7 +16,7 @@ META = dict(
     level='other',
     explanation='BOUNDED: enumerated hierarchies, one object per class, every way of reaching it in a later session; polymorphic queries and isinstance tests compared with Python isinstance',
     trusted_base=['the creation class recorded by the harness is the oracle'],
-    assumptions=['5 hierarchies of at most 5 classes; SQLite'],
+    assumptions=['6 hierarchies of at most 7 classes and 5 levels; SQLite'],
 )
 _MODELS = {}
 
@@ -39,6 +39,16 @@ def build(h):
         class D(B, C): d = Opt(int)
         class E(C): e = Opt(int)
         classes = [A, B, C, D, E]
+    elif h == 'deep':                                     # five levels, a branch at level 3 and a diamond whose join sits at level 5
+        class A(db.Entity):
+            name = Req(str); holders = Set('R', reverse='ref'); bags = Set('R', reverse='items')
+        class B(A): b = Opt(int)
+        class C(B): c = Opt(int)
+        class D(C): d = Opt(int)
+        class E(D): e = Opt(int)
+        class F(C): f = Opt(int)
+        class G(E, F): g = Opt(int)
+        classes = [A, B, C, D, E, F, G]
     elif h == 'str_discriminator':
         class A(db.Entity):
             _discriminator_ = 'base'
@@ -83,7 +93,7 @@ def build(h):
     return M
 
 
-HIER = ('chain', 'diamond', 'str_discriminator', 'int_discriminator', 'zero_discriminator')
+HIER = ('chain', 'diamond', 'deep', 'str_discriminator', 'int_discriminator', 'zero_discriminator')
 WAYS = ('getitem_root', 'getitem_every_ancestor', 'get_every_ancestor', 'select_root', 'generator_root', 'via_reference', 'via_collection', 'via_collection_copy', 'via_collection_select',
         'unloaded_reference', 'seed_then_getitem_root', 'seed_then_getitem_own_class', 'select_by_sql',
         'prefetch', 'projection', 'get_by_name')
@@ -205,7 +215,7 @@ def _empty(cfg, i, path):
 CONTRACTS = [
     Contract('reloaded_class', ['pony.orm.core:EntityMeta._get_from_identity_map_', 'pony.orm.core:EntityMeta._parse_row_', 'pony.orm.core:EntityMeta._construct_discriminator_criteria_',
                                 'pony.orm.core:EntityMeta._find_in_cache_', 'pony.orm.core:EntityMeta._fetch_objects', 'pony.orm.core:Entity._load_'], _rc_configs, _rc_case,
-             [('object_has_its_creation_class_however_it_is_reached', _empty)], level='bounded', bound='5 hierarchies, one object per class, 16 ways of reaching it in a later session'),
+             [('object_has_its_creation_class_however_it_is_reached', _empty)], level='bounded', bound='6 hierarchies (up to 5 levels deep), one object per class, 16 ways of reaching it in a later session'),
     Contract('polymorphic_queries', ['pony.orm.core:EntityMeta._construct_discriminator_criteria_', 'pony.orm.sqltranslation:FuncIsinstanceMonad', 'pony.orm.sqltranslation:SQLTranslator.__init__'],
-             _pq_configs, _pq_case, [('queries_and_isinstance_agree_with_python', _empty)], level='bounded', bound='5 hierarchies; every class and every pair of classes'),
+             _pq_configs, _pq_case, [('queries_and_isinstance_agree_with_python', _empty)], level='bounded', bound='6 hierarchies (up to 5 levels deep); every class and every pair of classes'),
 ]
